@@ -1127,6 +1127,202 @@ def rule_r5(chk, prog):
               'filter_nodes no longer traverses with dfs', loc=m.loc(fn))
 
 
+# ------------------------------------------------------------- R5 (depth)
+def _depth_constants(prog, m, fname, pname, depth=0, seen=None):
+    """Constants that can reach parameter ``pname`` of ``m.fname``: its
+    default, constant arguments at the call sites in the package, and -
+    through parameters of the callers - their constants (bounded)."""
+    seen = seen or set()
+    key = (m.name, fname, pname)
+    if key in seen or depth > 4:
+        return set()
+    seen = seen | {key}
+    f = m.func(fname)
+    ps = params_of(f)
+    if pname not in ps:
+        return set()
+    out = set()
+    idx = ps.index(pname)
+    dfl = f.args.defaults
+    di = idx - (len(ps) - len(dfl))
+    default = None
+    if 0 <= di < len(dfl):
+        try:
+            default = ('default of ' + fname, ast.literal_eval(dfl[di]))
+        except ValueError:
+            default = None
+    omitted = False
+    ncalls = 0
+    short = fname.split('.')[-1]
+    cls = fname.split('.')[0] if '.' in fname else None
+    for om in prog.pkg_modules():
+        if 'tests' in om.rel():
+            continue
+        for c in ast.walk(om.tree):
+            if not isinstance(c, ast.Call):
+                continue
+            nm = call_name(c) or ''
+            tgt = nm.split('.')[-1]
+            off = 0
+            if short == '__init__':
+                if tgt != cls:
+                    continue
+                off = 1
+            elif tgt != short:
+                continue
+            elif cls is not None:
+                off = 1
+            arg = None
+            if idx - off < len(c.args) and idx - off >= 0:
+                arg = c.args[idx - off]
+            for k_ in c.keywords:
+                if k_.arg == pname:
+                    arg = k_.value
+            ncalls += 1
+            if arg is None:
+                omitted = True
+                continue
+            if isinstance(arg, ast.Constant):
+                out.add((f'{om.rel()}:{c.lineno}', arg.value))
+            elif isinstance(arg, ast.Call) and isinstance(
+                    arg.func, ast.Attribute) and arg.func.attr == 'get' \
+                    and len(arg.args) == 2 and isinstance(
+                        arg.args[1], ast.Constant):
+                out.add((f'{om.rel()}:{c.lineno} (default of .get)',
+                         arg.args[1].value))
+            elif isinstance(arg, ast.Name):
+                fn = c
+                while fn is not None and not isinstance(fn, ast.FunctionDef):
+                    fn = getattr(fn, '_parent', None)
+                if fn is not None and arg.id in params_of(fn):
+                    out |= _depth_constants(prog, om, fn._qualname, arg.id,
+                                            depth + 1, seen)
+            elif isinstance(arg, ast.Attribute) and isinstance(
+                    arg.value, ast.Name) and arg.value.id == 'self':
+                # self.max_depth = max_depth in __init__
+                cd = getattr(c, '_parent', None)
+                while cd is not None and not isinstance(cd, ast.ClassDef):
+                    cd = getattr(cd, '_parent', None)
+                if cd is not None and f'{cd.name}.__init__' in om.funcs:
+                    init = om.funcs[f'{cd.name}.__init__']
+                    for st in walk_no_nested(init):
+                        if isinstance(st, ast.Assign) and unparse(
+                                st.targets[0]) == unparse(arg) and \
+                                isinstance(st.value, ast.Name) and \
+                                st.value.id in params_of(init):
+                            out |= _depth_constants(
+                                prog, om, f'{cd.name}.__init__',
+                                st.value.id, depth + 1, seen)
+    # the default counts when some caller relies on it (or nobody calls)
+    if default is not None and (omitted or ncalls == 0):
+        out.add(default)
+    return out
+
+
+def _descends(test, pname, depthv, value):
+    """Truth of the "descend" condition for a node at depth >= 1 when the
+    limit parameter has the constant ``value``; None if undecided."""
+    def ev(e):
+        if isinstance(e, ast.BoolOp):
+            vs = [ev(v) for v in e.values]
+            if isinstance(e.op, ast.Or):
+                if any(v is True for v in vs):
+                    return True
+                return False if all(v is False for v in vs) else None
+            if any(v is False for v in vs):
+                return False
+            return True if all(v is True for v in vs) else None
+        if isinstance(e, ast.UnaryOp) and isinstance(e.op, ast.Not):
+            v = ev(e.operand)
+            return None if v is None else not v
+        if isinstance(e, ast.Name) and e.id == pname:
+            return bool(value)
+        if isinstance(e, ast.Compare) and len(e.ops) == 1:
+            l, r = unparse(e.left), unparse(e.comparators[0])
+            op = e.ops[0]
+            if l == pname and isinstance(e.comparators[0], ast.Constant):
+                c = e.comparators[0].value
+                if isinstance(op, ast.Is):
+                    return value is c
+                if isinstance(op, ast.IsNot):
+                    return value is not c
+                try:
+                    if isinstance(op, ast.Eq):
+                        return value == c
+                    if isinstance(op, ast.NotEq):
+                        return value != c
+                    if isinstance(op, ast.Lt):
+                        return value < c
+                    if isinstance(op, ast.LtE):
+                        return value <= c
+                    if isinstance(op, ast.Gt):
+                        return value > c
+                    if isinstance(op, ast.GtE):
+                        return value >= c
+                except TypeError:
+                    return None
+            if {l, r} == {depthv, pname} and isinstance(
+                    value, int) and not isinstance(value, bool):
+                # depth >= 1 against the constant limit
+                lt = isinstance(op, ast.Lt) and l == depthv or \
+                    isinstance(op, ast.Gt) and l == pname
+                le = isinstance(op, ast.LtE) and l == depthv or \
+                    isinstance(op, ast.GtE) and l == pname
+                if lt:
+                    return False if value <= 1 else None
+                if le:
+                    return False if value < 1 else None
+            return None
+        if 'isinstance(' in unparse(e):
+            return True  # a node
+        return None
+
+    return ev(test)
+
+
+def rule_r5_depth(chk, prog):
+    chk.rule('C12.R5', 'walker discipline: DFS/BFS pop from the right end, '
+             'visit each node exactly once per iteration, children pushed '
+             'once in the order the container discipline requires')
+    m = prog.mod('nodes')
+    n = 0
+    for fname in ('dfs', 'bfs'):
+        f = m.func(fname)
+        ps = params_of(f)
+        if len(ps) < 2:
+            continue
+        pname = ps[1]
+        # the descend test: the If that guards the push of the children
+        tests = [st for st in walk_no_nested(f) if isinstance(st, ast.If)
+                 and pname in unparse(st.test)]
+        if not tests:
+            raise AnalysisError(f'C12.R5: {fname}: no test of {pname}')
+        # depth variable: the popped first component
+        depthv = None
+        for st in walk_no_nested(f):
+            if isinstance(st, ast.Assign) and isinstance(
+                    st.targets[0], ast.Tuple) and 'pop' in unparse(st.value):
+                depthv = st.targets[0].elts[0].id
+        consts = _depth_constants(prog, m, fname, pname)
+        for (src, val) in sorted(consts, key=lambda t: (t[0], repr(t[1]))):
+            if isinstance(val, int) and not isinstance(
+                    val, bool) and val >= 1:
+                continue  # a real limit
+            n += 1
+            res = [_descends(t.test, pname, depthv or 'cur_depth', val)
+                   for t in tests]
+            ok = all(r is True for r in res)
+            chk.check('C12.R5', f'nodes.{fname}',
+                      f'limit {val!r} ({src}) means "no limit"', ok,
+                      f'the value {val!r} reaches {fname}()\'s {pname} '
+                      f'({src}) where the caller means "no depth limit", '
+                      f'but the test "{unparse(tests[0].test)[:70]}" is '
+                      f'{res[0]} for it at depth >= 1: the walk never '
+                      'descends below the top level, nodes are not visited',
+                      loc=m.loc(tests[0]), nontrivial=True)
+    chk.floor('C12.R5', '"no limit" values reaching dfs/bfs', n, 2)
+
+
 # --------------------------------------------------------------------- R7
 def rule_r7(chk, prog):
     chk.rule('C12.R7', 'a node is the sequence of its children: indexing is '
@@ -1209,6 +1405,7 @@ def run(tier):
     chk.guard(rule_r3, chk, prog)
     chk.guard(rule_r4, chk, prog)
     chk.guard(rule_r5, chk, prog)
+    chk.guard(rule_r5_depth, chk, prog)
     chk.guard(rule_r7, chk, prog)
     # "copying yields an equal tree with fresh identities": reduplicate is
     # the copy that re-establishes them (shared with C13.R2-R4)
